@@ -196,6 +196,22 @@ CHECKS["C14"] = dict(
    note=TB + "; mesh contract (uniform, C20) and flux contract (pointwise function, C01) as hypotheses; 2-D pending.",
    ref="§6 C14")
 
+CHECKS["C13"] = dict(
+   technique="contract-based deductive verification, relational: fvm1d.rhs executed symbolically on a problem and on its "
+             "mirror image (abstract mesh); numflux, namedBC and the limiter through contracts whose mirror clauses are "
+             "proved at leaf level (C02 mirror, C13 bc-mirror, C12 odd/symmetric); staged ghost lemmas; z3/cvc5",
+   text="REFLECTION half of the statement, proof for all data, all strictly increasing meshes, symbolic ncell>=5 (four seam "
+        "cells + generic cell; 1..4 concrete for extrapol2): every registered boundary condition of every 1-D model commutes "
+        "with the reflection (both sides, in its regime); the residual of the mirrored problem is the mirrored residual "
+        "(even quantities equal, odd ones negated) and the per-cell time step is reflection invariant, for convection, "
+        "Burgers, shallow water and Euler with periodic, dirichlet, wall and inlet/outlet pairs exchanged (quick tier: "
+        "extrapol1/extrapol2 for all models, symbolic-kappa and MUSCL for the scalar models; thorough: all, where a few "
+        "Euler/extrapolk/MUSCL obligations remain undecided by the solvers). UNITS half: NOT decided by this check.",
+   note=TB + "; the change-of-units half of C13 (incl. bit-exactness for powers of two and the known scale dependence of the "
+        "vanalbada/vanleer regularisation literals) is not covered: no obligations are generated for it; integrators/driver by "
+        "linearity in the residuals (normal forms C05-C07) with the reflection-invariant time step.",
+   ref="§6 C13")
+
 NA = {
  "C04": "convergence of a solve at the design order under mesh refinement is a limit statement over a family of meshes "
         "(and an empirical one for Riemann problems; the reference solutions wrap the external aerokit): no pre/postcondition "
